@@ -575,6 +575,10 @@ def worker(f):
         except asyncio.CancelledError:
             connection.response("426", "transfer aborted")
             connection.response("226", "abort successful")
+        except ConnectionError:
+            # the peer has dropped the data connection (workers do not
+            # touch the command connection): the session goes on
+            connection.response("426", "data connection lost, transfer aborted")
 
     return wrapper
 
